@@ -240,6 +240,8 @@ def gen_moves(rng):
         c['cols'] = [tok(x) for x in rng.sample(labs, min(k, len(labs)))]
         c['names'] = [tok(f'h{i}') for i in range(len(c['cols']))] if (not c['drop'] or rng.random() < 0.3) else []
         c['sorted'] = rng.random() < 0.6   # sort the rows first so that the labels are in tree-form
+        if rng.random() < 0.4:
+            c['reorder'], c['sorted'] = True, False    # reorder_for_hierarchy=True on rows in any order
     else:
         k = rng.randint(1, min(2, len(labs)))
         c['cols'] = [tok(x) for x in rng.sample(labs, k)]
@@ -464,6 +466,8 @@ def moves_lines(c):
     w = w_frame_obs(o)
     if c['op'] == 'set_index':
         return [f'rel.set_index {w} {ct(untok(c["col"]))} {int(c["drop"])}']
+    if c['op'] == 'set_index_hierarchy' and c.get('reorder'):
+        return []      # the model has no reorder_for_hierarchy: reference only
     if c['op'] == 'set_index_hierarchy':
         return [f'rel.set_index_hierarchy {w} {w_list([ct(untok(t)) for t in c["cols"]])} {int(c["drop"])}']
     return [f'rel.shift_in {w} {w_list([ct(untok(t)) for t in c["cols"]])}']
@@ -519,7 +523,7 @@ def evaluate(ctx, c, outs):
     k = c['k']
     ctx.count(f'kind_{k}')
     pre = []
-    need_model(ctx, c, outs, pre, expected=(k != 'pivot' or pivot_model_ok(c)))
+    need_model(ctx, c, outs, pre, expected=(k != 'pivot' or pivot_model_ok(c)) and not (k == 'moves' and c.get('reorder')))
     if k == 'moves':
         return pre + eval_moves(ctx, c, outs)
     if k == 'join':
@@ -621,8 +625,21 @@ def eval_moves(ctx, c, outs):
         sel = [j] if exp[0] == 'ok' else []
     elif op == 'set_index_hierarchy':
         cs = [untok(t) for t in c['cols']]
-        real = run(lambda: f.set_index_hierarchy(cs, drop=drop))
+        reorder = bool(c.get('reorder'))
+        real = run(lambda: f.set_index_hierarchy(cs, drop=drop, reorder_for_hierarchy=True) if reorder else f.set_index_hierarchy(cs, drop=drop))
         js = [cols_flat.index(ct(x)) for x in cs]
+        if reorder:
+            # reorder_for_hierarchy: whole rows are re-arranged so that the labels form a tree - lexicographically by the order in
+            # which each depth's labels are first seen, ties keeping their order; every cell stays with its row
+            ctx.count('moves_reorder_for_hierarchy')
+            ranks = [dict() for _ in js]
+            for r in o['rows']:
+                for d, j in enumerate(js):
+                    ranks[d].setdefault(r[j], len(ranks[d]))
+            order = sorted(range(n), key=lambda i: tuple(ranks[d][o['rows'][i][j]] for d, j in enumerate(js)))
+            if order != list(range(n)):
+                ctx.count('moves_reorder_permutes_rows')
+            o = dict(o, rows=[o['rows'][i] for i in order], index=[o['index'][i] for i in order])
         labels = [[r[j] for j in js] for r in o['rows']]
         if len(js) < 2:
             exp = ('err', 'indexInit')
